@@ -1,6 +1,8 @@
 package main
 
 import (
+	"crypto/sha256"
+	"encoding/hex"
 	"io"
 	"os"
 	"path/filepath"
@@ -92,6 +94,29 @@ func register() {
 				return map[string]interface{}{"ok": false, "open": true}
 			}
 			return decodeResult(fs.ReadAll())
+		case "sized":
+			// a real file of the given size: the unit repeated, cut at size; answer = rune count + sha256 of the re-encoded text
+			dir, _ := os.MkdirTemp("", "znh")
+			defer os.RemoveAll(dir)
+			p := filepath.Join(dir, "a.zn")
+			unit := hlib.Unhex(in["unit"].(string))
+			size := int(in["size"].(float64))
+			buf := make([]byte, 0, size+len(unit))
+			for len(buf) < size {
+				buf = append(buf, unit...)
+			}
+			buf = append(buf[:size], hlib.Unhex(in["tail"].(string))...)
+			os.WriteFile(p, buf, 0644)
+			fs, err := zio.NewFileStream(p)
+			if err != nil {
+				return map[string]interface{}{"ok": false, "open": true}
+			}
+			rs, err := fs.ReadAll()
+			if err != nil {
+				return map[string]interface{}{"ok": false}
+			}
+			sum := sha256.Sum256([]byte(string(rs)))
+			return map[string]interface{}{"ok": true, "count": len(rs), "sha": hex.EncodeToString(sum[:])}
 		case "exec":
 			dir, _ := os.MkdirTemp("", "znh")
 			defer os.RemoveAll(dir)
